@@ -68,7 +68,16 @@ class Scenario:
                 items.append(txt)
         return "(" + ", ".join(items) + ")"
 
-    def text(self, style):
+    def text(self, style, local=None):
+        """local: the helper classes are declared INSIDE model T (local classes) instead of beside it"""
+        local = getattr(self, "local", False) if local is None else local
+        txt = self._text(style)
+        if not local:
+            return txt
+        head, tail = txt.split("model T\n", 1)
+        return "model T\n" + "".join("  " + l + "\n" for l in head.strip().splitlines()) + tail
+
+    def _text(self, style):
         m = self.mods
         tmod = ", ".join("%s = %s" % (a, e) for _t, a, e in m["type"])
         decl = {"p": [], "x": [], "v": []}
@@ -221,6 +230,7 @@ def main():
     failures, n, seen, rejected = [], 0, set(), 0
     for _ in range(n_cases):
         sc = Scenario(rng)
+        sc.local = (n % 4 == 3)          # every fourth scenario declares the helper classes as local classes of T
         n += 1
         seen.add(sc.text("dotted"))
         try:
@@ -236,7 +246,7 @@ def main():
         print(json.dumps({"performed": True, "cases": n, "distinct_nontrivial": len(seen), "failures": failures[:10],
                           "rule": "random scenarios over a fixed 3-level hierarchy (type Volt, model A (extending A0 with a modification) with parameter/variable/alias-typed variable, B containing A, C extending A, T containing B, C, A): "
                                   "0-4 modifications per site (type definition, declarations, B's component, C's extends clause, T's three components) on value/start/min/max/nominal with literal or name "
-                                  "expressions (names existing in inner and outer scopes), each scenario written in dotted, nested and alternating spelling; compared: every attribute of every flat variable with the "
+                                  "expressions (names existing in inner and outer scopes), each scenario written in dotted, nested and alternating spelling, every fourth one with the helper classes declared as local classes of T; compared: every attribute of every flat variable with the "
                                   "reference (outermost wins, scope of writing), equation count, and equality of the spellings (a rejected spelling is allowed); distinct = distinct model texts",
                           "bound": "%d scenarios x 3 spellings" % n}))
     else:
